@@ -136,7 +136,16 @@ class _D(ast.NodeTransformer):
         it = node.iter
         if isinstance(it, ast.Name) and it.id in self.lits:
             it = self.lits[it.id]
-        if isinstance(it, (ast.Tuple, ast.List)) and 0 < len(it.elts) <= 12 and not node.orelse and _pure_lit(it):
+        # D.items() over a literal dict: the (key, value) pairs in order
+        if isinstance(it, ast.Call) and isinstance(it.func, ast.Attribute) and it.func.attr == "items" and not it.args:
+            d = it.func.value
+            if isinstance(d, ast.Name) and d.id in self.lits:
+                d = self.lits[d.id]
+            if isinstance(d, ast.Dict) and all(k is not None for k in d.keys):
+                it = ast.Tuple(elts=[ast.Tuple(elts=[k, v], ctx=ast.Load()) for k, v in zip(d.keys, d.values)], ctx=ast.Load())
+        if isinstance(it, ast.Dict) and all(k is not None for k in it.keys):
+            it = ast.Tuple(elts=list(it.keys), ctx=ast.Load())
+        if isinstance(it, (ast.Tuple, ast.List)) and 0 < len(it.elts) <= 64 and not node.orelse and _pure_lit(it):
             tgt = node.target
             names = [tgt.id] if isinstance(tgt, ast.Name) else [e.id for e in tgt.elts] if isinstance(tgt, ast.Tuple) and all(
                 isinstance(e, ast.Name) for e in tgt.elts) else None
@@ -186,6 +195,8 @@ class _D(ast.NodeTransformer):
 def _pure_lit(e):
     if isinstance(e, (ast.Tuple, ast.List)):
         return all(_pure_lit(x) for x in e.elts)
+    if isinstance(e, ast.Dict):
+        return all(k is not None and _pure_lit(k) for k in e.keys) and all(_pure_lit(v) for v in e.values)
     if isinstance(e, (ast.Constant, ast.Name)):
         return True
     if isinstance(e, ast.Attribute):
@@ -261,12 +272,25 @@ def _counting_whiles(stmts):
 def desugar(fnode):
     f = copy.deepcopy(fnode)
     d = _D()
-    # literal tuples / lists bound once to a local name that is only ever read (iterated)
-    cnt, val = {}, {}
-    for n in ast.walk(f):
-        if isinstance(n, ast.Name) and isinstance(n.ctx, (ast.Store, ast.Del)):
-            cnt[n.id] = cnt.get(n.id, 0) + 1
-        if isinstance(n, ast.Assign) and len(n.targets) == 1 and isinstance(n.targets[0], ast.Name) and isinstance(n.value, (ast.Tuple, ast.List)):
-            val[n.targets[0].id] = n.value
-    d.lits = {k: v for k, v in val.items() if cnt.get(k) == 1 and _pure_lit(v)}
+    d.lits = literal_bindings(f)
     return d.visit(f)
+
+
+def literal_bindings(root):
+    """name -> literal tuple / list / dict of pure elements it is bound to exactly once under `root` (deletes aside)"""
+    cnt, val = {}, {}
+    for n in ast.walk(root):
+        if isinstance(n, ast.Name) and isinstance(n.ctx, ast.Store):
+            cnt[n.id] = cnt.get(n.id, 0) + 1
+        if isinstance(n, ast.Assign) and len(n.targets) == 1 and isinstance(n.targets[0], ast.Name) and isinstance(n.value, (ast.Tuple, ast.List, ast.Dict)):
+            val[n.targets[0].id] = n.value
+        if isinstance(n, ast.AnnAssign) and isinstance(n.target, ast.Name) and isinstance(n.value, (ast.Tuple, ast.List, ast.Dict)):
+            val[n.target.id] = n.value
+    return {k: v for k, v in val.items() if cnt.get(k) == 1 and _pure_lit(v)}
+
+
+def unroll_block(stmts, root):
+    """the statement list with literal-driven loops unrolled (used for module-level registration loops)"""
+    d = _D()
+    d.lits = literal_bindings(root)
+    return d._block([copy.deepcopy(s) for s in stmts])
